@@ -264,12 +264,12 @@ def first_diff(a, b):
 
 class Processes(Unit):
     name = "hashseed-process-clock"
-    rule = ("every pipeline item (recompile x lazy, TTX import, TTX dump, feaLib compile of the corpus .fea files, subset x 4 option sets, instancer x 3 limit kinds, varLib.build of corpus + generated designspaces, merge, TTC save, WOFF/WOFF2 save; ~700 items) executed in separate processes under "
-            "PYTHONHASHSEED in {0,1,2,3} (thorough: 0..11), plus seed 0 with the wall clock shifted by +1e6 s with SOURCE_DATE_EPOCH pinned, and SOURCE_DATE_EPOCH unset with recalcTimestamp=False at clock offsets 0 and +1e6 s: the sha256 of every output must be identical across all runs; "
+    rule = ("every pipeline item (recompile x lazy, TTX import, TTX dump, feaLib compile of the corpus .fea files, subset x 4 option sets, every pair of characters of the fonts with AAT / colour / MATH tables with and without .notdef, generated multi-script feature files with aalt, a COLR v0+v1 font, instancer x 3 limit kinds, varLib.build of corpus + generated designspaces, merge, TTC save, WOFF/WOFF2 save; ~700 items) executed in separate processes under "
+            "PYTHONHASHSEED in {0,1,2,3} (thorough: 0..11), plus seed 0 with the wall clock shifted by +1e6 s with SOURCE_DATE_EPOCH pinned, SOURCE_DATE_EPOCH unset with recalcTimestamp=False at clock offsets 0 and +1e6 s, and SOURCE_DATE_EPOCH=0 at clock offsets 0 and +1e6 s: the sha256 of every output must be identical across all runs; "
             "distinct = pipeline items whose output is not an exception")
     in_parent = True
     chunk = 1
-    required_witnesses = ("subset items", "instance items", "varlib-build items", "fea items", "merge items")
+    required_witnesses = ("subset items", "instance items", "varlib-build items", "fea items", "merge items", "subset-pair items", "SOURCE_DATE_EPOCH=0 runs")
 
     def cases(self, tier, seed):
         yield ["all"]
@@ -283,6 +283,9 @@ class Processes(Unit):
         runs.append(("hashseed=0,clock+1e6", {"PYTHONHASHSEED": "0"}, ["--clock-offset", "1000000"]))
         runs.append(("noepoch,norecalc,clock+0", {"PYTHONHASHSEED": "1", "SOURCE_DATE_EPOCH": None}, ["--no-recalc-timestamp"]))
         runs.append(("noepoch,norecalc,clock+1e6", {"PYTHONHASHSEED": "2", "SOURCE_DATE_EPOCH": None}, ["--no-recalc-timestamp", "--clock-offset", "1000000"]))
+        # the timestamp pinned at the epoch itself (the value 0 is a value, not "unset")
+        runs.append(("epoch0,clock+0", {"PYTHONHASHSEED": "3", "SOURCE_DATE_EPOCH": "0"}, []))
+        runs.append(("epoch0,clock+1e6", {"PYTHONHASHSEED": "3", "SOURCE_DATE_EPOCH": "0"}, ["--clock-offset", "1000000"]))
         procs = []
         script = os.path.join(env.VERIF, "oracles", "pipelines.py")
         for label, envmod, extra in runs:
@@ -315,9 +318,12 @@ class Processes(Unit):
         # group B: SOURCE_DATE_EPOCH unset, recalcTimestamp=False -> identical across clocks for
         #          pipelines that transform existing fonts (fonts created from scratch by
         #          FontBuilder stamp head.created with the current time: not pinned, excluded)
-        groupA = [l for l in sorted(results) if not l.startswith("noepoch")]
+        groupA = [l for l in sorted(results) if not l.startswith(("noepoch", "epoch0"))]
         groupB = [l for l in sorted(results) if l.startswith("noepoch")]
-        for group, why in ((groupA, "hashseed"), (groupB, "clock")):
+        groupC = [l for l in sorted(results) if l.startswith("epoch0")]
+        if groupC:
+            rec.witness("SOURCE_DATE_EPOCH=0 runs")
+        for group, why in ((groupA, "hashseed"), (groupB, "clock"), (groupC, "epoch0")):
             if not group:
                 continue
             ref_label = group[0]
@@ -326,6 +332,8 @@ class Processes(Unit):
                 kind = name.split(":")[0]
                 if why == "clock" and ("tiny" in name or kind in ("merge", "ttc", "flavor")):
                     continue
+                if why == "epoch0" and kind not in ("recompile", "subset", "instance", "ttc", "flavor", "merge"):
+                    continue  # only the pipelines that stamp head.modified on save
                 if why == "hashseed":
                     rec.witness(kind + " items")
                     if not ref[name].startswith("EXC"):
@@ -334,7 +342,7 @@ class Processes(Unit):
                 for label in group[1:]:
                     v = results[label].get(name)
                     if v != ref[name]:
-                        cls = "clock" if ("clock" in label or why == "clock") else "hashseed"
+                        cls = "clock" if ("clock" in label or why in ("clock", "epoch0")) else "hashseed"
                         rec.violation("nondeterministic:%s:%s" % (kind, cls),
                                       "pipeline item %r: output digest %s under %s but %s under %s" % (name, ref[name], ref_label, v, label), case=[name, label])
         rec.trace(len(results))
